@@ -82,7 +82,48 @@ debug = false
     return src
 
 
+def gen_nightly():
+    """second generated crate (harness/nightly/, ignored by git) for the instruments that need the nightly toolchain
+    (ThreadSanitizer with -Zbuild-std, Miri): same sources, same lock; differences forced by rustc >= 1.80 only:
+    * the repo lists rand 0.8 under [dependencies] and rand 0.6 under [dev-dependencies]; new rustc refuses the two
+      `--extern rand` candidates, so the dev-dependency is dropped (src/tests compiles against 0.8 too);
+    * ahash 0.7's build script switches on the removed `stdsimd` feature whenever it sees a nightly compiler: a copy of
+      the crate with those two println! lines removed is patched in (library code identical);
+    * clap 2's crate_authors! macro trips the deny-by-default lint dangerous_implicit_autorefs: allowed for this crate."""
+    import glob
+    import tarfile
+    nd = os.path.join(HERE, "nightly")
+    cargo = gen_cargo()
+    if re.search(r'(?m)^rand\s*=\s*"0\.8', cargo):
+        cargo = re.sub(r'(?m)^rand\s*=\s*"0\.6[^"]*"\s*\n', "", cargo)
+    lock = open(os.path.join(HERE, "Cargo.lock")).read() if os.path.exists(os.path.join(HERE, "Cargo.lock")) else open(os.path.join(REPO, "Cargo.lock")).read()
+    m = re.search(r'name = "ahash"\nversion = "(0\.7\.[0-9]+)"', lock)
+    if m:
+        ver = m.group(1)
+        dst = os.path.join(nd, "ahash-patched")
+        if not os.path.exists(os.path.join(dst, "Cargo.toml")):
+            crates = glob.glob(os.path.expanduser("~/.cargo/registry/cache/*/ahash-%s.crate" % ver))
+            if crates:
+                os.makedirs(nd, exist_ok=True)
+                with tarfile.open(crates[0]) as t:
+                    t.extractall(nd)
+                os.rename(os.path.join(nd, "ahash-%s" % ver), dst)
+                b = open(os.path.join(dst, "build.rs")).read()
+                b = b.replace('println!("cargo:rustc-cfg=feature=\\"specialize\\"");', "").replace('println!("cargo:rustc-cfg=feature=\\"stdsimd\\"");', "")
+                open(os.path.join(dst, "build.rs"), "w").write(b)
+        cargo += '\n[patch.crates-io]\nahash = { path = "ahash-patched" }\n'
+    cargo += '\n[lints.rust]\ndangerous_implicit_autorefs = "allow"\n'
+    write_if_changed(os.path.join(nd, "Cargo.toml"), cargo)
+    write_if_changed(os.path.join(nd, "src/main.rs"), gen_main())
+    if not os.path.exists(os.path.join(nd, "Cargo.lock")) or open(os.path.join(nd, ".lock_src")).read() != lock:
+        open(os.path.join(nd, "Cargo.lock"), "w").write(lock)
+        open(os.path.join(nd, ".lock_src"), "w").write(lock)
+
+
 def main():
+    if "--nightly" in sys.argv:
+        gen_nightly()
+        return
     changed = []
     if write_if_changed(os.path.join(HERE, "src/main.rs"), gen_main()):
         changed.append("src/main.rs")
